@@ -153,7 +153,10 @@ Unprep(t, x) ==
          [] l = "uuid" /\ x.p = "str" -> LET u == UuidOfText(x.cp) IN IF u.ok THEN [p |-> "uuid", hex |-> u.hex] ELSE bad
          [] l = "decimal" /\ x.p = "bytes" ->
               \* stored integers with more digits than the precision are not decimals of this type (readers round them): no defined value
-              IF x.by = <<>> \/ Len(NToDigits(FromTwosBE(x.by).mag)) > t.lt.prec THEN bad
-              ELSE DecimalOfUnscaled(FromTwosBE(x.by), t.lt.scale)
+              \* (readers round to the precision; digits beyond it that are zero lose nothing: 17.0 under precision 2, scale 1)
+              IF x.by = <<>> THEN bad
+              ELSE LET ds == NToDigits(FromTwosBE(x.by).mag) IN
+                   IF Len(ds) > t.lt.prec /\ \E i \in (t.lt.prec + 1)..Len(ds) : ds[i] # 0 THEN bad
+                   ELSE DecimalOfUnscaled(FromTwosBE(x.by), t.lt.scale)
          [] OTHER -> x
 =============================================================================
